@@ -25,22 +25,33 @@ def has_cycle(n, edges):
 def check(n, lab, missing):
     """lab[(a,b)] in 0..4: 0 none, 1 dep, 2 merge, 3 weak, 4 loop_control ; missing: set of (a, kind) references to the absent node 'Z'"""
     names = ['n%d' % i for i in range(n)]
-    def build():
-        g = {}
+    def build(two_phase=False):
+        """two_phase: the way edb/schema/ordering.py builds its graph -- entries are created with EMPTY ordered containers that are filled afterwards"""
+        from edb.common.ordered import OrderedSet
+        g = {}; fills = []
         for a in range(n):
-            deps = {names[b] for b in range(n) if lab.get((a, b)) == 1}
-            merge = {names[b] for b in range(n) if lab.get((a, b)) == 2}
-            weak = {names[b] for b in range(n) if lab.get((a, b)) == 3}
-            ctrl = {names[b] for b in range(n) if lab.get((a, b)) == 4}
+            deps = [names[b] for b in range(n) if lab.get((a, b)) in (1, 5)]
+            merge = [names[b] for b in range(n) if lab.get((a, b)) == 2]
+            weak = [names[b] for b in range(n) if lab.get((a, b)) in (3, 5)]         # label 5: the same target is both a hard and a soft dependency
+            ctrl = [names[b] for b in range(n) if lab.get((a, b)) == 4]
             for (x, kind) in missing:
-                if x == a: (deps if kind == 1 else merge if kind == 2 else weak).add('Z')
-            g[names[a]] = T.DepGraphEntry(item=('item', names[a]), deps=deps, merge=merge if merge or any(x == a and k == 2 for x, k in missing) else None, weak_deps=weak, loop_control=ctrl)
+                if x == a: (deps if kind == 1 else merge if kind == 2 else weak).append('Z')
+            has_merge = bool(merge) or any(x == a and k == 2 for x, k in missing)
+            if two_phase:
+                d_, w_, c_ = OrderedSet(), OrderedSet(), OrderedSet(); m_ = OrderedSet() if has_merge else None
+                g[names[a]] = T.DepGraphEntry(item=('item', names[a]), deps=d_, merge=m_, weak_deps=w_, loop_control=c_)
+                fills.append((d_, deps)); fills.append((w_, weak)); fills.append((c_, ctrl))
+                if m_ is not None: fills.append((m_, merge))
+            else:
+                g[names[a]] = T.DepGraphEntry(item=('item', names[a]), deps=set(deps), merge=set(merge) if has_merge else None, weak_deps=set(weak), loop_control=set(ctrl))
+        for cont, xs in fills:
+            for x in xs: cont.add(x)
         return g
-    hard = [(a, b) for (a, b), l in lab.items() if l in (1, 2)]
+    hard = [(a, b) for (a, b), l in lab.items() if l in (1, 2, 5)]
     weak = [(a, b) for (a, b), l in lab.items() if l == 3]
     ctrl = [(a, b) for (a, b), l in lab.items() if l == 4]      # loop_control: takes part in cycle detection, does not order
-    for allow in (False, True):
-        g = build()
+    for allow, two_phase in ((False, False), (True, False), (False, True)):
+        g = build(two_phase)
         try:
             res = T.sort(g, allow_unresolved=allow); exc = None
         except Exception as e:
@@ -74,12 +85,12 @@ def main():
     def go(n, lab, missing):
         res['graphs'] += 1
         f = check(n, lab, missing)
-        if f: res['failure'] = dict(nodes=n, labels={'%d->%d' % k: ['none', 'dep', 'merge', 'weak', 'loop_control'][v] for k, v in lab.items() if v}, missing=sorted(missing), problem=f)
+        if f: res['failure'] = dict(nodes=n, labels={'%d->%d' % k: ['none', 'dep', 'merge', 'weak', 'loop_control', 'dep+weak'][v] for k, v in lab.items() if v}, missing=sorted(missing), problem=f)
         return f
     done = False
     for n in range(1, nmax + 1):
         pairs = [(a, b) for a in range(n) for b in range(n)]
-        for labs in itertools.product(range(5 if n <= 2 else 4), repeat=len(pairs)):      # (loop_control labels exhaustively up to 2 nodes, randomly beyond)
+        for labs in itertools.product(range(6 if n <= 2 else 4), repeat=len(pairs)):      # (loop_control labels exhaustively up to 2 nodes, randomly beyond)
             if go(n, dict(zip(pairs, labs)), set()): done = True; break
         if done: break
         for a in range(n):
@@ -88,7 +99,7 @@ def main():
     if not done:
         for _ in range(nrand):
             n = rnd.randint(3, nrmax); pairs = [(a, b) for a in range(n) for b in range(n)]
-            lab = {p: rnd.choice([0, 0, 0, 0, 1, 2, 3, 3, 4] if rnd.random() < 0.5 else [0, 0, 0, 1, 2, 3]) for p in pairs}
+            lab = {p: rnd.choice([0, 0, 0, 0, 1, 2, 3, 3, 4, 5] if rnd.random() < 0.5 else [0, 0, 0, 1, 2, 3]) for p in pairs}
             if go(n, lab, set()): break
     json.dump(res, open(out, 'w'), indent=1)
 
